@@ -841,7 +841,40 @@ static void gen_round3b(rng &r, bool th)
         }
     // the same two events as probes of the recorded findings (lifetime clause of `lifecount`)
     for (const char *sc : {"e", "ue", "uoe"}) P(std::string("@F:C03-emplace-alias-head-slot lifecount 2 ") + sc);
-    for (const char *sc : {"x", "ux", "uxu"}) P(std::string("@F:C03-ring-push-throwing-copy lifecount 2 ") + sc);
+    // repaired in round 3b (6d59c1e; was shown as a VIOLATION by `lifecount 1 x`): a push whose copy constructor
+    // throws left the head slot without an object.  Now part of the strict lifetime stream: every sequence over
+    // push / pop (contract or not), aliasing push and throwing push of length 5 [6] on rings 1..2, random scripts
+    for (const char *sc : {"x", "ux", "uxu", "xx", "uxo", "xuo"}) for (int n : {1, 2, 3}) if (n > 1 || std::string(sc) != "uxu") P("lifecount " + S(n) + " " + sc);
+    for (int n = 1; n <= 2; n++)
+    {
+        int maxlen = th ? 6 : 5;
+        std::vector<std::pair<std::string, int>> cur = {{"", 0}};
+        for (int len = 1; len <= maxlen; len++)
+        {
+            std::vector<std::pair<std::string, int>> nxt;
+            for (auto &p : cur)
+            {
+                nxt.push_back({p.first + (p.second < n ? "u" : "U"), p.second < n ? p.second + 1 : 0});
+                nxt.push_back({p.first + (p.second > 0 ? "o" : "O"), p.second > 0 ? p.second - 1 : n});
+                nxt.push_back({p.first + "a", p.second < n ? p.second + 1 : 0});
+                nxt.push_back({p.first + "x", p.second});
+            }
+            if (len == maxlen) for (auto &p : nxt) if (p.first.find('x') != std::string::npos) P("lifecount " + S(n) + " " + p.first);
+            cur = nxt;
+        }
+    }
+    for (int n : {1, 2, 3, 5, 8})
+        for (int rep = 0; rep < (th ? 40 : 8); rep++)
+        {
+            std::string sc;
+            int len = (int)r.range(1, 4 * n + 10);
+            for (int k = 0; k < len; k++)
+            {
+                unsigned y = (unsigned)r.below(100);
+                sc += y < 25 ? 'U' : y < 45 ? 'O' : y < 55 ? 'a' : y < 80 ? 'x' : y < 84 ? 'c' : y < 88 ? 'z' : y < 92 ? 'y' : y < 96 ? 'g' : 'm';
+            }
+            P("lifecount " + S(n) + " " + sc);
+        }
     // (b) `arr`: unbounded_array<Tracked>(n) under fill / clear / self-assignment / assignment / resize /
     // begin-end: every token sequence up to length 3 [4] on arrays of 0, 1, 3 elements, random longer ones
     const std::vector<std::string> toks = {"f5", "c", "s", "g2", "g0", "z3", "z0", "b"};
